@@ -314,7 +314,10 @@ fn make_pool(spec: &StreamSpec) -> Vec<(Vec<u8>, u64)> {
     if spec.src == Fmt::Yaml && spec.size_class <= 1 {
         // YAML-only machinery whose per-document resources must be released with the document:
         // anchors and aliases, tags, directives, explicit document ends, comments, block scalars
-        let feature_docs: [&[u8]; 3] = [
+        let feature_docs: [&[u8]; 5] = [
+            // other line break conventions (CRLF, lone CR): nothing in these documents is a line feed
+            b"---\r\nk: 1\r\nlist:\r\n  - a\r\n  - b\r\n",
+            b"---\rk: 1\rlist:\r  - a\r  - b\r",
             b"---\nbase: &b {x: 1, y: [1, 2]}\nagain: *b\nlist: [*b, *b]\nstr: &s \"text\"\nr: *s\n",
             b"%YAML 1.1\n%TAG !e! tag:example.com,2000:\n---\n# a comment\nt: !!str 12\nu: !!int \"7\"\nblock: |\n  line one\n  line two\nfolded: >-\n  a\n  b\n...\n",
             b"---\n- &a1 [1, 2, 3]\n- *a1\n- &a2 {k: *a1}\n- *a2\n- *a2\n",
@@ -326,6 +329,29 @@ fn make_pool(spec: &StreamSpec) -> Vec<(Vec<u8>, u64)> {
             }
         }
     }
+    // a whole YAML stream in another line break convention: lone CR (no line feed anywhere) or CRLF
+    if spec.src == Fmt::Yaml && matches!(spec.pool_seed % 5, 1 | 2) {
+        let brk: &[u8] = if spec.pool_seed % 5 == 1 { b"\r" } else { b"\r\n" };
+        let converted: Vec<Option<(Vec<u8>, u64)>> = pool
+            .iter()
+            .map(|(b, n)| {
+                let mut c = Vec::with_capacity(b.len() + 16);
+                for x in b {
+                    if *x == b'\n' {
+                        c.extend_from_slice(brk);
+                    } else {
+                        c.push(*x);
+                    }
+                }
+                // only if the document still means the same (line breaks inside scalars are normalised by YAML)
+                let same = run_slice(&c, Some(Fmt::Yaml), spec.to).out == run_slice(b, Some(Fmt::Yaml), spec.to).out;
+                if same { Some((c, *n)) } else { None }
+            })
+            .collect();
+        if converted.iter().all(|c| c.is_some()) {
+            pool = converted.into_iter().map(|c| c.unwrap()).collect();
+        }
+    }
     pool
 }
 
@@ -334,7 +360,7 @@ fn make_pool(spec: &StreamSpec) -> Vec<(Vec<u8>, u64)> {
 /// JSON, a block mapping without a document start marker). Returns the bytes
 /// and the output length; chosen from the pool seed.
 fn head_doc(spec: &StreamSpec) -> Option<(Vec<u8>, u64)> {
-    if spec.src != Fmt::Yaml {
+    if spec.src != Fmt::Yaml || matches!(spec.pool_seed % 5, 1 | 2) {
         return None;
     }
     let b: &[u8] = match spec.pool_seed % 4 {
